@@ -54,6 +54,12 @@ def impl_eval(case):
             man = InferenceManager(bb, "c-inference")
             df = man.inference(core.make_queries(names, answers.keyed(case["queries"])))
             out["cinf"] = [bool(x) for x in df["result"]]
+            if case.get("xqueries"):
+                xnames = list(names) + ["zx"]      # one atom the base and the object's signature do not contain
+                out["xq_accept"] = [bool(o.conditional_acceptance(Conditional(core.f_pysmt(b, xnames), core.f_pysmt(a, xnames), "q")))
+                                    for _, b, a in case["xqueries"]]
+                df2 = InferenceManager(core.make_bb(names, keyed), "c-inference").inference(core.make_queries(xnames, answers.keyed(case["xqueries"])))
+                out["xq_cinf"] = [bool(x) for x in df2["result"]]
     except Exception as e:  # noqa: BLE001
         out["err"] = f"{type(e).__name__}: {e}"[:200]
     if case.get("front"):
@@ -135,6 +141,16 @@ def compare(case, impl, resp):
                 if c and any(core.f_eval(q[2], w) for w in W) and not a:
                     fail("a query c-inference answers True is not accepted by the c-representation object", {"query": q}, True)
                     break
+    if case.get("xqueries") and resp.get("xcrep") and "xq_accept" in impl:
+        xacc = resp["xcrep"].split("|")[1]
+        Wx = core.all_worlds(case["n"] + 1)
+        for i, (q, a) in enumerate(zip(case["xqueries"], impl["xq_accept"])):
+            if a != (xacc[i] == "1"):
+                fail("acceptance of a query that mentions an atom outside the signature differs from the rank comparison", {"query": q, "got": a}, xacc[i] == "1")
+                break
+            if impl["xq_cinf"][i] and any(core.f_eval(q[2], w) for w in Wx) and not a:
+                fail("a query c-inference answers True is not accepted by the c-representation object", {"query": q}, True)
+                break
     if case.get("front"):
         kind, val = impl["front"]
         if kind == "timeout":
@@ -189,6 +205,9 @@ def driver_eval(cases, impls):
         if eta is not None and len(eta) == len(c["base"]) and all(isinstance(x, int) and x >= 0 for x in eta):
             lines.append(f"crep {c['n']} {D} {Q} " + " ".join(str(x) for x in eta))
             idx.append((i, "crep"))
+            if c.get("xqueries") and "xq_accept" in impl:
+                lines.append(f"crep {c['n'] + 1} {D} {core.conds_line(answers.keyed(c['xqueries']))} " + " ".join(str(x) for x in eta))
+                idx.append((i, "xcrep"))
         if c.get("front"):
             B = 3
             if eta:
@@ -231,6 +250,10 @@ def run(ctx):
         b = dict(b)
         b["n"] = b["sig"]
         b["queries"] = [[k, x, a] for k, x, a in b["queries"] if not ((core.f_atoms(x) | core.f_atoms(a)) - set(range(b["n"])))]
+        if b["base"] and i % 2 == 0:
+            zx = ("a", b["n"])
+            c1, c2 = ctx.rng.choice(b["base"]), ctx.rng.choice(b["base"])
+            b["xqueries"] = [[1, c1[1], ("&", c1[2], zx)], [2, ("|", c2[1], zx), c2[2]], [3, c1[1], ctx.rng.choice([zx, ("!", zx)])]]
         b["front"] = (i % (3 if quick else 2) == 0) and len(b["base"]) <= 4
         b["front_timeout"] = 30 if quick else 120
         cases.append(b)
